@@ -289,7 +289,7 @@ def run(ctx, cases, cov, violations, known_hits, notes):
         reported = True
 
     # 8. Coq and python must agree; a failing re-check that nothing above explains is reported as such
-    if coq_ok != (py_acyclic and not g["unguarded"] and not g["unresolved"]):
+    if coq_ok != (py_acyclic and not g["unguarded"] and not g["unresolved"] and not g["lock_leaks"]):
         violation("proof", "Coq re-check (%s, failing %s) and the python reference (acyclic=%s, unguarded=%d) disagree" % (
             "ok" if coq_ok else "failed", failing, py_acyclic, len(g["unguarded"])),
             dict(broken="theorem %s on the regenerated graph" % failing, log=(log1 + log2)[-3000:]), True)
